@@ -308,6 +308,47 @@ Definition resize_fill (n : nat) (v : vsrc) (s : st) : res st :=
   s2 <- fill_range (n - size s1) (size s1) q s1 ;;
   Ok (set_size n s2).
 
+(** The value argument as the caller evaluates it: a[i] requires i < size() *)
+Definition own_ok (v : vsrc) (s : st) : bool := match v with Own i => i <? size s | Ext _ => true end.
+
+(** const T tmp(value); f(tmp); ~tmp  -- the repair proposed in patches/C26_alias_value.diff: when the value is one of the
+    array's own elements it is copied to a local object before any element is moved or the block is freed *)
+Definition with_tmp (i : nat) (f : vsrc -> st -> res st) (s : st) : res st :=
+  x <- read i s ;;
+  s1 <- f (Ext x) (mkst (cur s) (nw s) (size s) (gen s) (N.succ (nctor s)) (ndtor s)) ;;
+  Ok (mkst (cur s1) (nw s1) (size s1) (gen s1) (nctor s1) (N.succ (ndtor s1))).
+
+(** the four operations taking a const T& as the source reads them: [guard = false] is Array.h as it is now,
+    [guard = true] is Array.h with the isOwnElement() repair *)
+Definition push_back_g (guard : bool) (v : vsrc) (s : st) : res st :=
+  if own_ok v s then
+    match guard, v with
+    | true, Own i => if capacity s =? size s then with_tmp i push_back s else push_back v s
+    | _, _ => push_back v s
+    end
+  else Err Precond.
+Definition insert_one_g (guard : bool) (p : nat) (v : vsrc) (s : st) : res st :=
+  if own_ok v s then
+    match guard, v with
+    | true, Own i => with_tmp i (insert_one p) s
+    | _, _ => insert_one p v s
+    end
+  else Err Precond.
+Definition insert_n_g (guard : bool) (p n : nat) (v : vsrc) (s : st) : res st :=
+  if own_ok v s then
+    match guard, v with
+    | true, Own i => if n =? 0 then insert_n p n v s else with_tmp i (insert_n p n) s
+    | _, _ => insert_n p n v s
+    end
+  else Err Precond.
+Definition resize_fill_g (guard : bool) (n : nat) (v : vsrc) (s : st) : res st :=
+  if own_ok v s then
+    match guard, v with
+    | true, Own i => if capacity s <? n then with_tmp i (resize_fill n) s else resize_fill n v s
+    | _, _ => resize_fill n v s
+    end
+  else Err Precond.
+
 Definition shrink_to_fit (s : st) : res st :=
   if shrink_keeps (capacity s) (size s) then Ok s else
   let s0 := alloc_new (size s) s in
@@ -421,9 +462,9 @@ Inductive op :=
 | ViewFill (k : nat) (path : list (nat * nat)) (v : elt)         (* a(b1,l1)(b2,l2)....fill(v) *)
 | ViewAssign (k : nat) (path : list (nat * nat)) (vs : list elt). (* a(b1,l1)... = range of the same length *)
 
-Definition step (w : world) (o : op) : res world :=
+Definition step (guard : bool) (w : world) (o : op) : res world :=
   match o with
-  | PushBack k v => on_arr k (push_back v) w
+  | PushBack k v => on_arr k (push_back_g guard v) w
   | PushBackMove k v => on_arr k (push_back (Ext v)) w
   | PushBackDefault k => on_arr k push_back_default w
   | PopBack k => on_arr k pop_back w
@@ -431,12 +472,12 @@ Definition step (w : world) (o : op) : res world :=
   | EraseOne k i => on_arr k (erase_one i) w
   | EraseFast k i => on_arr k (erase_fast i) w
   | Clear k => on_arr k clear w
-  | InsertN k p n v => on_arr k (insert_n p n v) w
-  | Insert k p v => on_arr k (insert_one p v) w
+  | InsertN k p n v => on_arr k (insert_n_g guard p n v) w
+  | Insert k p v => on_arr k (insert_one_g guard p v) w
   | Emplace k p v => on_arr k (insert_one p (Ext v)) w
   | InsertList k p vs => on_arr k (insert_list p vs) w
   | Resize k n => on_arr k (resize n) w
-  | ResizeFill k n v => on_arr k (resize_fill n v) w
+  | ResizeFill k n v => on_arr k (resize_fill_g guard n v) w
   | Reserve k n => on_arr k (reserve n) w
   | ShrinkToFit k => on_arr k shrink_to_fit w
   | AssignFill k n v => on_arr k (assign_fill_op n v) w
@@ -461,8 +502,8 @@ Definition step (w : world) (o : op) : res world :=
   | ViewAssign k path vs => on_arr k (view_assign path vs) w
   end.
 
-Fixpoint run (w : world) (ops : list op) : res world :=
-  match ops with [] => Ok w | o :: t => w1 <- step w o ;; run w1 t end.
+Fixpoint run (guard : bool) (w : world) (ops : list op) : res world :=
+  match ops with [] => Ok w | o :: t => w1 <- step guard w o ;; run guard w1 t end.
 
 (** observation of one array, as printed by the harness: the values of the first size() slots
     (None where the slot holds no live object) *)
